@@ -128,7 +128,7 @@ func vhC15Script(w MutableWorld, m *vhRefModel, nrel int, nrepl int) {
 		}
 		nm := vChoice("nmembers", 2+vTier())
 		if i >= nrel {
-			nm = vChoice("nmembers", 3)
+			nm = vChoice("nmembers", 4) // a replacement has 0..3 members (a repeated member followed by another)
 		}
 		mem := make([]uint64, nm)
 		ids := make([]b6.FeatureID, nm)
